@@ -110,6 +110,11 @@ impl Subscription {
         self.observer.notify_new_messages_available();
     }
 
+    /// Whether a deletion of the subscription has started.
+    pub fn deletion_started(&self) -> bool {
+        self.observer.deletion_started()
+    }
+
     /// Returns a signal for when the subscription gets deleted.
     pub fn deleted(&self) -> Deleted {
         self.observer.deleted()
